@@ -48,7 +48,7 @@ def step (line : String) : String :=
     | some tags, some attempts, some q, some rules =>
       let st := Store.ofAttempts attempts
       let b := (Blocker.new rules (opt == "1")).useTags tags
-      let d := (Spec.live rules).all (fun r => Spec.tokenSound r q) && isAsciiStr q.url && Spec.idsSeparate rules
+      let d := Spec.caseOK rules q && isAsciiStr q.url
       ans (showVerdict (b.check st q)) ("|".intercalate ((Spec.verdicts rules (dedupS tags) st q).map showVerdict)) d
     | _, _, _, _ => "bad-op"
   -- diagnostics: which rules are not token-sound for the request
@@ -62,7 +62,7 @@ def step (line : String) : String :=
     match unhexList tags, parseRequest q, rules.mapM parseRule with
     | some tags, some q, some rules =>
       let b := (Blocker.new rules (opt == "1")).useTags tags
-      let d := (Spec.live rules).all (fun r => Spec.tokenSound r q) && isAsciiStr q.url && Spec.idsSeparate rules
+      let d := Spec.caseOK rules q && isAsciiStr q.url
       ans (showSet (b.csp? q)) (showSet (Spec.csp? rules (dedupS tags) q)) d
     | _, _, _ => "bad-op"
   | _ => "bad-op"
